@@ -65,7 +65,11 @@ def _validate(out, prop, trace, tag):
                     break
                 if e.get("event") == "call":
                     calls.append(e["call"])
+                    if "silent" in e:            # a burst: the silent call came first
+                        calls.append(e["silent"])
             case["calls"] = list(reversed(calls))
+            if "silent" in ev:
+                case["calls"].append(ev["silent"])
         out.verdict(rec, case)
     return n - 1
 
